@@ -254,7 +254,11 @@ def gen_case(rng, index, tier):
                 L.add({'p': tdir + '/info/' + nm2 + '.trashinfo', 't': 'f',
                        'c': world.trashinfo_text('stale', '2001-01-01T00:00:00')})
     if scen == 'orphan-payload':
-        L.add({'p': tdir + '/files/' + name, 't': 'f', 'c': 'old orphan'})
+        if rng.random() < 0.4:
+            # an orphan that exists() does not see
+            L.add({'p': tdir + '/files/' + name, 't': 'l', 'to': 'nowhere'})
+        else:
+            L.add({'p': tdir + '/files/' + name, 't': 'f', 'c': 'old orphan'})
     if scen == 'stale-info':
         L.add({'p': tdir + '/info/' + name + '.trashinfo', 't': 'f',
                'c': world.trashinfo_text('stale', '2001-01-01T00:00:00')})
